@@ -239,6 +239,66 @@ def _promoted_range(fn, const):
     return None
 
 
+def _eval_u8_fn(g, v):
+    """possible results of a small function of one byte for the byte value v (constants, comparisons and switches on the
+    byte are followed; anything else is explored on all sides)"""
+    rets = set()
+    seen = set()
+    stack = [(0, ((1, v),))]
+    while stack:
+        bb, envt = stack.pop()
+        if (bb, envt) in seen or len(seen) > 4000:
+            continue
+        seen.add((bb, envt))
+        env = dict(envt)
+
+        def val(op):
+            c = op.get("c")
+            if c is not None and "int" in c:
+                return int(c["int"])
+            q = op_place(op)
+            if q is not None and "p" not in q:
+                return env.get(q["l"])
+            return None
+        for st in g.stmts(bb):
+            if st["k"] != "assign" or "p" in st["place"]:
+                continue
+            rv = st["rv"]
+            out = None
+            if rv["k"] in ("use", "cast"):
+                out = val(rv["op"])
+            elif rv["k"] == "bin":
+                a, b = val(rv["a"]), val(rv["b"])
+                if a is not None and b is not None:
+                    out = {"Ge": int(a >= b), "Gt": int(a > b), "Le": int(a <= b), "Lt": int(a < b), "Eq": int(a == b), "Ne": int(a != b),
+                           "BitAnd": a & b, "BitOr": a | b, "Sub": (a - b) % 256, "Add": a + b, "Shr": a >> b if b < 64 else 0}.get(rv["op"])
+            if out is None:
+                env.pop(st["place"]["l"], None)
+            else:
+                env[st["place"]["l"]] = out
+        t = g.term(bb)
+        if t["k"] == "return":
+            rets.add(env.get(0))
+            continue
+        envt2 = tuple(sorted(env.items()))
+        if t["k"] == "switch":
+            dv = val(t["discr"])
+            if dv is not None:
+                listed = {a_: x for a_, x in t["arms"]}
+                stack.append((listed.get(str(dv), t["otherwise"]), envt2))
+                continue
+        if t["k"] == "call" and t.get("dest") is not None and "p" not in t["dest"]:
+            env.pop(t["dest"]["l"], None)
+            envt2 = tuple(sorted(env.items()))
+        for x in g.succ[bb]:
+            stack.append((x, envt2))
+    return rets
+
+
+def _utf8_len(v):
+    return 1 if v < 0xC0 else 2 if v < 0xE0 else 3 if v < 0xF0 else 4
+
+
 def check_every_byte_examined(ctx, prog, fpath, sets_):
     """S10 (round 10, seed C02-10): the escaper can only escape the bytes it looks at.  The byte its classifier switches on
     must be the item of an iteration over the whole input (`Iterator::next` of bytes / chars / enumerate), or - in an
@@ -288,6 +348,22 @@ def check_every_byte_examined(ctx, prog, fpath, sets_):
                     roots.add(o)
             defs_in = [d for d in flow.defs(g).get(l, []) if d.bb in body]
             carried = l
+            # the indexed local may be a per-round copy of the loop variable (`_idx = i; bytes[_idx]`): follow plain copies
+            for _hop in range(4):
+                ds_ = [d for d in flow.defs(g).get(carried, []) if d.bb in body]
+                srcl = {op_place(d.rv["op"])["l"] for d in ds_ if d.kind == "stmt" and d.rv["k"] == "use" and op_place(d.rv["op"]) is not None
+                        and "p" not in op_place(d.rv["op"])}
+                if ds_ and len(srcl) == 1 and all(d.kind == "stmt" and d.rv["k"] == "use" and "c" not in d.rv["op"] for d in ds_) \
+                        and not any(o.kind == "bin" for d in ds_ for o in [None] if False):
+                    nxt = next(iter(srcl))
+                    # a copy of itself through the checked-add tuple is the increment, not a copy
+                    if all(any(q.kind in ("bin",) for q in flow.origins(g, d.rv["op"])) and
+                           not any(q.kind == "const" for q in flow.origins(g, d.rv["op"])) for d in ds_):
+                        break
+                    carried = nxt
+                else:
+                    break
+            defs_in = [d for d in flow.defs(g).get(carried, []) if d.bb in body]
             if not defs_in:
                 # `_idx = i` copied each round: find the local it copies
                 for d in flow.defs(g).get(l, []):
@@ -300,6 +376,24 @@ def check_every_byte_examined(ctx, prog, fpath, sets_):
                 srcs = flow.origins(g, d.rv["op"]) if d.rv["k"] == "use" else []
                 plus_one = bool(srcs) and all(o.kind == "bin" and o.rv["op"] in ("Add", "AddWithOverflow", "AddUnchecked")
                                               and (const_int(o.rv["b"]) == 1 or const_int(o.rv["a"]) == 1) for o in srcs)
+                if not plus_one and srcs and all(o.kind == "bin" and o.rv["op"] in ("Add", "AddWithOverflow", "AddUnchecked") for o in srcs):
+                    # a skip over a whole UTF-8 sequence: the step is what a helper of the crate says about the lead byte;
+                    # that helper is evaluated on all 256 byte values and must answer the length of the sequence each one
+                    # starts (finite domain), and the step is taken for non-ASCII bytes only
+                    exact = True
+                    for o in srcs:
+                        hc = [q for x in (o.rv["a"], o.rv["b"]) if "c" not in x for q in flow.origins(g, x) if q.kind == "call"]
+                        h = prog.fns.get(hc[0].call.name) if len(hc) == 1 else None
+                        if h is None or h.argc != 1 or h.locals[1].get("prim") != "u8":
+                            exact = False
+                            continue
+                        for v in range(0x80, 0x100):
+                            if _eval_u8_fn(h, v) != {_utf8_len(v)}:
+                                exact = False
+                        hi = any(gf[0] == "bin" and gf[2] is True and gf[1] in ("Ge", "Gt") and const_int(gf[3]["b"]) in (0x80, 0x7f)
+                                 for gf in flow.guard_facts(prog, g, d.bb))
+                        exact = exact and hi
+                    plus_one = exact
                 incs.append((d.bb, plus_one))
             if not incs:
                 ok = False
